@@ -31,7 +31,7 @@ def replay_instances(ctx):
         # three addresses, every batch, finite / connected class
         ("a3", {"Addrs": A3, "TTLs": "{0, 2, 8}", "Conn": 8, "Seqs": "{1, 2}", "Cap": 0, "MaxBatch": 3}, 40, 150 if q else 2000, 60),
         # two addresses, two finite classes, connected and permanent
-        ("a2", {"Addrs": A2, "TTLs": "{0, 2, 4, 8}" if q else "{0, 2, 4, 8, 9}", "Conn": 8, "Seqs": "{1, 2}" if q else "{1, 2, 3}", "Cap": 0, "MaxBatch": 2}, 40, 150 if q else 2000, 60),
+        ("a2", {"Addrs": A2, "TTLs": "{0, 2, 4, 8, 9}", "Conn": 8, "Seqs": "{1, 2}" if q else "{1, 2, 3}", "Cap": 0, "MaxBatch": 2}, 40, 150 if q else 2000, 60),
         # binding per-peer cap with the connected class: quick = ordered batches of up to two addresses and one
         # sequence number (a call that moves a stored entry across the connected class and then inserts);
         # thorough = one-address calls with two sequence numbers (capo below has the ordered batches there)
@@ -43,6 +43,10 @@ def replay_instances(ctx):
          40, 150 if q else 1000, 60),
     ]
     if not q:
+        # the named classes identify uses, at one tick = 1 min (harness: unit fixed by "UnitSec"): TempAddrTTL = 2,
+        # RecentlyConnectedAddrTTL = 15, ConnectedAddrTTL, PermanentAddrTTL; every ordered pair of them on one address
+        out.append(("named", {"Addrs": '{"a1"}', "TTLs": "{0, 2, 15, 100, 101}", "Conn": 100, "Seqs": "{1}", "Cap": 0,
+                              "MaxBatch": 1, "_unit": 60}, 60, 500, 80))
         # three addresses, two finite classes; singletons and the full set (221 688 transitions)
         out.append(("a3e", {"Addrs": A3, "TTLs": "{0, 2, 3, 8}", "Conn": 8, "Seqs": "{1, 2}", "Cap": 0, "MaxBatch": 3,
                             "_ends": True}, 50, 1000, 80))
@@ -54,7 +58,62 @@ ALL_PROPS = ("PROPERTIES AddNeverShortens AddScope SetOverrides UpdateExactlyCla
              "EvictionRule RejectInert RecordStays Durable")
 
 
-def covering_walks(g, seed, max_len, max_blind=4):
+def class_probe_walks(g, seed, fraction=1.0):
+    """TTL-class probes.  The TTL class of a stored address is latent: it only shows when a later
+    UpdateAddrs names it.  For every transition that re-names a stored address (AddAddrs / SetAddrs /
+    accepted record, positive ttl) one short walk: shortest path to the source state, the transition, then
+    the model's UpdateAddrs(class the address must now have -> 0), after which the address must be gone.
+    Returns (walks, set of transition indices they traverse)."""
+    rnd = random.Random(seed * 7 + 3)
+    init = g.inits[0]
+    parent = {init: None}
+    bfs = [init]
+    for u in bfs:
+        for ei in g.out.get(u, ()):
+            v = g.edges[ei][2]
+            if v not in parent and not g.edges[ei][1].get("tie"):
+                parent[v] = (u, ei)
+                bfs.append(v)
+    walks, used = [], set()
+    for s0 in bfs:
+        book = g.states[s0]["book"]
+        for ei in g.out.get(s0, ()):
+            _sk, op, tk = g.edges[ei]
+            if op.get("name") not in ("add", "set", "consume") or not op.get("ttl") or op.get("tie") \
+                    or op.get("res") is False:
+                continue
+            named = [a for a in sorted(op.get("addrs") or []) if book[a]["ttl"] > 0]
+            if not named:
+                continue
+            # always: the call gives a stored address ANOTHER class with the SAME lifetime (classes that sit
+            # within one storage quantum of each other: connected / permanent); the rest: a seeded fraction
+            close = [a for a in named if book[a]["ttl"] != op["ttl"] and book[a]["rem"] == g.states[tk]["book"][a]["rem"]
+                     and g.states[tk]["book"][a]["ttl"] != book[a]["ttl"]]
+            if close:
+                named = close
+            elif rnd.random() >= fraction:
+                continue
+            a = named[rnd.randrange(len(named))]
+            cls = g.states[tk]["book"][a]["ttl"]
+            if cls <= 0:
+                continue
+            pe = next((e for e in g.out.get(tk, ()) if g.edges[e][1].get("name") == "update"
+                       and g.edges[e][1].get("old") == cls and g.edges[e][1].get("new") == 0), None)
+            if pe is None:
+                continue
+            path = []
+            w = s0
+            while parent[w] is not None:
+                w, pei = parent[w]
+                path.append(pei)
+            path.reverse()
+            path += [ei, pe]
+            used.update(path)
+            walks.append(g._mk(init, path))
+    return walks, used
+
+
+def covering_walks(g, seed, max_len, max_blind=4, covered0=()):
     """Walks from the initial state that together traverse every transition at least once, in O(E):
     one BFS gives the shortest path to every state; a walk = that path to a state with untraversed
     out-transitions, then untraversed transitions followed greedily (one step of look-ahead through
@@ -76,7 +135,7 @@ def covering_walks(g, seed, max_len, max_blind=4):
                 parent[v] = (u, ei)
                 bfs.append(v)
     todo = {k: list(reversed(v)) for k, v in order.items()}     # stacks of untraversed out-transitions
-    covered = set()
+    covered = set(covered0)
 
     def pop(u):
         st = todo.get(u)
@@ -139,6 +198,7 @@ def _edges(args):
     ctx, tag, consts, max_len, n_rand, depth, beh_dir = args
     consts = dict(consts)
     ends = consts.pop("_ends", False)
+    unit = consts.pop("_unit", 0)
     cfg = tlc.subst_cfg("C09_MC.cfg", consts, replace=[
         ("Batches <- MCBatches", "Batches <- MCBatchesEnds" if ends else
          ("Batches <- MCOBatches" if consts["Cap"] else "Batches <- MCBatches")),
@@ -152,14 +212,16 @@ def _edges(args):
     g = graph.Graph(r.inits, r.edges)
     if g.n_edges() == 0:
         raise MachineryError("no edges printed for " + tag)
-    walks = covering_walks(g, ctx.seed, max_len, max_blind=1 if ctx.tier != "thorough" else (2 if g.n_edges() > 200000 else 4))
+    probes, used = class_probe_walks(g, ctx.seed, fraction=0.12 if ctx.tier != "thorough" else 1.0)
+    walks = probes + covering_walks(g, ctx.seed, max_len, covered0=used,
+                                    max_blind=1 if ctx.tier != "thorough" else (2 if g.n_edges() > 200000 else 4))
     n_cov = len(walks)
     for w in g.random_walks(n_rand, depth, seed=ctx.seed * 31 + 7):
         k = next((i for i, st in enumerate(w["steps"]) if st["op"].get("tie")), None)
         if k is not None:
             w["steps"] = w["steps"][:k + 1]
         walks.append(w)
-    hdr = {"tag": tag, "Conn": consts["Conn"], "Cap": consts["Cap"], "edges": g.n_edges(), "states": g.n_states(),
+    hdr = {"tag": tag, "Conn": consts["Conn"], "Cap": consts["Cap"], "UnitSec": unit, "edges": g.n_edges(), "states": g.n_states(),
            "consts": {k: str(v) for k, v in consts.items()}}
     graph.write_behaviours(os.path.join(beh_dir, tag + ".jsonl"), walks, hdr)
     steps = sum(len(w["steps"]) for w in walks)
